@@ -81,6 +81,15 @@ func init() {
 		rule: "one case = one simulated run: handler kind, threshold, colour and source flags, a derivation tree of up to 12 loggers built before and during the run, 1..4 client tasks logging and deriving through shared nodes with generated attribute lists (all slog kinds, nested/inline groups, LogValuer, AnsiString, lines over 16 KiB), a probe record through every node at the end; every line is compared with an isolated replay of its logger's own chain; non-trivial = at least one context switch where the running task could have continued, forced pre-emption or fired fault; distinct = distinct hash of the full event history",
 		assume: []string{"the reference is the same code in isolation (fresh root, fresh pool buffers, sequential): a defect that changes isolated and concurrent output identically is invisible here (that is C01/C13 territory, not applicable to this technique)", "sampling, not proof: <=12 loggers, <=4 clients x <=7 operations"},
 	}
+	worlds["httpworld"] = &worldSpec{
+		name: "httpworld", pkgs: []string{"logger", "httpd", "util/netutil"}, quick: 6000, thorough: 80000,
+		real: []string{"httpd/*.go (Mux, trie lookup, Store, ResponseWriter)", "logger/httpd.go (Relay) and the three log handlers", "net/http request/response data types, http.Error", "log/slog, encoding/json, runtime.Stack"},
+		stub: []string{"goroutine scheduling", "sync.Pool behind the Store pool and the log buffer pools (fresh / most recent / stale object chosen by the simulator)", "atomic request counter", "crypto/rand (ID prefix from the PRNG)", "clock", "client tasks (harness)", "http.ResponseWriter (records WriteHeader calls, first status, body; can fail Write)", "log destination"},
+		rule: "one case = one simulated run. C05: a route table drawn from patterns with 0..4 parameters of differing names, 1..3 batches of requests (matching, partially matching then failing, unmatched, handler panicking under a recovering relay) from 1..4 concurrent clients, further routes registered between batches; every observation through Store is compared with the same request on a fresh Mux. C15: 1..6 clients with generated handler behaviours (status, body, panic point, eight panic value kinds, failing client connection) through Mux + Logger.Relay over each log handler; records are paired by request ID. Non-trivial = at least one context switch where the running task could have continued, forced pre-emption or fired fault; distinct = distinct hash of the full event history",
+		assume: []string{"request paths are well-formed (leading slash): what findRoute does with other strings is C04's subject", "C15 runs with colour off and URIs/tokens over [A-Za-z0-9/_-] so that the record tokenizers stay trivial and independent of C01/C13", "sampling, not proof: <=10 routes, <=4 clients x <=5 requests x <=3 batches"},
+	}
+	propWorld["C05"] = "httpworld"
+	propWorld["C15"] = "httpworld"
 	propWorld["C02"] = "logworld"
 	propWorld["C03"] = "logworld"
 	propWorld["C11"] = "filterworld"
